@@ -1,7 +1,7 @@
 """C03 LEB128: readuleb128 / readuleb128p1 / readsleb128 / writeuleb128 / writesleb128 vs the DEX definition."""
 import z3
 from ..engine import *
-from .. import common
+from .. import common, hook
 
 FUNCS = ['androguard.core.dex.readuleb128', 'readuleb128p1', 'readsleb128', 'writeuleb128', 'writesleb128',
          'get_byte', 'DalvikPacker.__getitem__']
@@ -93,12 +93,15 @@ def z_sleb(B):
 
 
 def run(ctx):
+    # dictionaries of the module keyed by a symbolic value are compared with == (side table per path), not hashed
+    hook.install(symkeys=('androguard.core.dex',))
     dex = common.dexmod()
     cm = common.SymCM(dex)
     ctx.functions_encoded = FUNCS
     ctx.bounds = dict(read='all 2^40 five-byte prefixes (decoding never looks further)',
                       write='all 2^32 values (uleb, uleb128p1 on [-1,2^32-2], sleb signed 32-bit)')
-    ctx.stubs = ['SymStruct for struct.Struct', 'SymIO for io.BytesIO', 'NullLogger']
+    ctx.stubs = ['SymStruct for struct.Struct', 'SymIO for io.BytesIO', 'NullLogger',
+                 'writers: the other writer is called with the same value first (history)']
     ctx.outside_claim = ['uleb128 whose 5th byte has bits above 0x0f, sleb128 whose 5th byte is not a sign '
                          'extension (payload does not fit 32 bits): behaviour reported as information only',
                          'sequences of more than five bytes']
@@ -167,13 +170,18 @@ def run(ctx):
     saved = dex.bytearray
     dex.bytearray = lambda *a: SBA([]) if not a else saved(*a)
     try:
-        for name, val, writer, reader, refenc in [
-                ('uleb_roundtrip', V, dex.writeuleb128, dex.readuleb128, 'u'),
-                ('uleb128p1_roundtrip', V, dex.writeuleb128, dex.readuleb128p1, 'p1'),
-                ('sleb_roundtrip', SV, dex.writesleb128, dex.readsleb128, 's')]:
+        for name, val, writer, reader, refenc, other in [
+                ('uleb_roundtrip', V, dex.writeuleb128, dex.readuleb128, 'u', dex.writesleb128),
+                ('uleb128p1_roundtrip', V, dex.writeuleb128, dex.readuleb128p1, 'p1', dex.writesleb128),
+                ('sleb_roundtrip', SV, dex.writesleb128, dex.readsleb128, 's', dex.writeuleb128)]:
             eng = ctx.new_engine()
 
             def go2():
+                # history: the other writer was asked for the same number before (replays do the same)
+                try:
+                    other(cm, val)
+                except ValueError:
+                    pass
                 enc = writer(cm, val)
                 f = dex.io.BytesIO(SBytes(list(enc)))
                 r = reader(cm, f)
@@ -243,6 +251,10 @@ def replay(w):
         return got != exp, 'bytes %s: %s returned %r, DEX definition gives %r' % (w['bytes'], w['fn'], got, exp)
     v = w['value']
     try:
+        try:
+            (dex.writeuleb128 if w['fn'] == 'sleb_roundtrip' else dex.writesleb128)(cm, v)     # the history of the run
+        except ValueError:
+            pass
         if w['fn'] == 'sleb_roundtrip':
             enc = bytes(dex.writesleb128(cm, v))
             got = (enc, dex.readsleb128(cm, io.BytesIO(enc)))
